@@ -1,13 +1,11 @@
 """C03: every setting comes from the highest-precedence level that defines it;
 load-order irrelevance; first existing suffix only."""
-import ast
 import itertools
-import os
 
 from .. import config_common as cc
 from .. import coqterm as ct
 from .. import gen_tree as gt
-from ..core import Prop, REPO
+from ..core import Prop
 
 DOC_ORDER = ["defaults", "collection", "system", "user", "project", "env", "runtime",
              "overrides", "modifications", "deletions"]
@@ -321,56 +319,7 @@ class C03(Prop):
 
     # -- extra checks ------------------------------------------------------
     def extra_checks(self, tier, seed):
-        return [self.check_tables(), self.check_formats(seed, 60 if tier == "quick" else 600)]
-
-    def check_tables(self):
-        """Fail-closed reading of Config.merge and _file_suffixes from the source:
-        the order of merge steps and the suffix tuple must be the documented ones
-        (the tables the model and C03_order_is_documented use)."""
-        res = {"name": "source-tables", "evaluations": 0, "failures": [], "note": ""}
-        try:
-            src = open(os.path.join(REPO, "invoke", "config.py")).read()
-            mod = ast.parse(src)
-            cls = [n for n in mod.body if isinstance(n, ast.ClassDef) and n.name == "Config"][0]
-            fns = {n.name: n for n in cls.body if isinstance(n, ast.FunctionDef)}
-            order = []
-            for st in fns["merge"].body:
-                if not (isinstance(st, ast.Expr) and isinstance(st.value, ast.Call)):
-                    continue
-                call = st.value
-                f = call.func
-                if isinstance(f, ast.Name) and f.id in ("merge_dicts", "obliterate"):
-                    a = call.args[1]
-                    if not (isinstance(a, ast.Attribute) and a.attr.startswith("_")):
-                        raise ValueError("unknown argument shape")
-                    order.append(a.attr[1:])
-                elif isinstance(f, ast.Attribute) and f.attr == "_merge_file":
-                    order.append(call.args[0].value)
-                elif isinstance(f, ast.Name) and f.id == "debug":
-                    continue
-                elif isinstance(f, ast.Attribute) and f.attr == "_set":
-                    continue
-                else:
-                    raise ValueError("unknown statement in merge()")
-            sfx = None
-            for node in ast.walk(fns["__init__"]):
-                if isinstance(node, ast.Call) and isinstance(node.func, ast.Attribute) \
-                        and node.func.attr == "_set":
-                    for kw in node.keywords:
-                        if kw.arg == "_file_suffixes":
-                            sfx = [e.value for e in kw.value.elts]
-            res["evaluations"] = 2
-            if order != DOC_ORDER:
-                res["failures"].append({"case": {"merge_order_in_source": order},
-                                        "what": "Config.merge applies the levels in the order %r, documented %r"
-                                        % (order, DOC_ORDER)})
-            if sfx != cc.SUFFIXES:
-                res["failures"].append({"case": {"file_suffixes_in_source": sfx},
-                                        "what": "_file_suffixes is %r, documented %r" % (sfx, cc.SUFFIXES)})
-            res["note"] = "translator: ok (merge order and suffix tuple read from the AST)"
-        except Exception as e:   # fail closed: no guess, behavioural correspondence only
-            res["note"] = "translator: fallback(Config.merge/_file_suffixes): %r" % (e,)
-        return res
+        return [self.check_formats(seed, 60 if tier == "quick" else 600)]
 
     def check_formats(self, seed, n):
         """Format independence (a test: the parsers are not modelled): the same
